@@ -582,6 +582,11 @@ def observe(api, pop, feat, payloads=()):
     obs["diffPI"] = abstract_set(pdiff(I, Pc), init_names, wit, ANY)
     obs["lost"] = abstract_set(pdiff(N1, Pc), init_names, wit, LOSS, only_witness=True)
     obs["touched"] = abstract_set(pdiff(N1, I), init_names, wit, ANY)
+    # the graph signature is a witness as a whole: an input / output that is ADDED (not only one that is lost or changed)
+    # is a change of something the transformation may not need to change (session 6, seeded C15-m12 / C10-m12)
+    for form, d in (("ModelProto entry", abstract_set(pdiff(N1, Pc), init_names, wit, ANY)), ("ir.Model entry", obs["touched"])):
+        if "io_sig" in d and "io_sig" not in obs["lost"]:
+            obs["lost"]["io_sig"] = [f"{form}: {t}" for t in d["io_sig"]]
     obs["argmut"] = {} if api in INPLACE else abstract_set(pdiff(M, arg), init_names, wit, ANY)
     return obs
 
